@@ -63,7 +63,7 @@ def run(chk, tier):
             if i % 2 == 0:
                 g.feat |= {"halt", "fun"}
             if i % 3 == 1:
-                g.feat |= {"tup", "fun", "coll", "list", "filt", "for", "adt", "kwd", "strop", "str", "where", "pfor"}
+                g.feat |= {"tup", "fun", "coll", "list", "filt", "for", "adt", "kwd", "strop", "str", "where", "pfor", "bits"}
             progs.append(g.program("h%d_%d" % (k, i)))
         fam = progcheck.Family(chk, progs, "gen%d" % k, workers=vlib.NCPU, timeout=1500)
         for s, c in fam.status_count.items():
